@@ -58,6 +58,12 @@ func NewCaptivePortal(uri string) (*CaptivePortal, error) {
 		return nil, err
 	}
 
+	// Make sure the option can actually be carried in a router advertisement,
+	// such as when the URI is too long for a single option.
+	if _, err := ndp.MarshalMessage(&ndp.RouterAdvertisement{Options: []ndp.Option{cp}}); err != nil {
+		return nil, fmt.Errorf("captive portal URI cannot be encoded in a router advertisement: %v", err)
+	}
+
 	return &CaptivePortal{Portal: cp}, nil
 }
 
